@@ -14,9 +14,9 @@ ARMED_K34_FILES = (
 
 
 def armed(fn, site):
-    if site.kind in ("K1", "K2"):
-        return True
-    return fn.file in ARMED_K34_FILES
+    # since the second triage round every reachable K3/K4 site of the interpreter crates is armed;
+    # ARMED_K34_FILES is kept for C06's scope
+    return True
 
 
 def run(F, R, tier):
@@ -24,13 +24,13 @@ def run(F, R, tier):
                    "in the armed files, others listed as undecided) in a function reachable in the call graph from VM::run through the StdLibState built-in "
                    "registry is discharged by a constant, a checked dominating guard, its type, a size argument or an audited invariant; otherwise it is a finding")
     kinds = ("K1", "K2", "K3", "K4")
-    run_pps(F, R, "R9.4", ENTRY, kinds, CHA, registry_names=REGISTRY, armed=armed, floor_fns=700, floor_sites=70,
-            what=": the interpreter would crash instead of returning a located error")
+    seen1 = run_pps(F, R, "R9.4", ENTRY, kinds, CHA, registry_names=REGISTRY, armed=armed, floor_fns=700, floor_sites=70,
+                    what=": the interpreter would crash instead of returning a located error")
     if tier == "thorough":
-        # second registry: the texcraft binary's state (adds texlang-font and the text transforms)
-        R.rule("R9.4b", "same, through the texcraft binary's built-in registry (K1+K2 armed; sites shared with R9.4 keep their keys)")
-        regs = [f.name for f in F.fns.values() if f.crate == "texcraft.bin" and f.name.endswith("built_in_commands")]
-        if regs:
-            from ..facts import strip_generics
-            run_pps(F, R, "R9.4b", ENTRY, ("K1", "K2"), CHA | {"texcraft.bin"}, registry_names=[strip_generics(r) for r in regs], armed=armed,
-                    floor_fns=700, floor_sites=70, what=": the interpreter would crash instead of returning a located error")
+        # second registry: the texcraft binary's state (adds \\font, \\nullfont, the repl commands and \\dump);
+        # only functions not already covered through the StdLibState registry are examined, in the interpreter crates
+        if [f for f in F.fns.values() if f.name == "texcraft::new_vm"]:
+            scope = set(INTERP_CRATES) | {"common.lib", "texcraft_stdext.lib"}
+            run_pps(F, R, "R9.4", ENTRY, kinds, CHA | {"texcraft.bin"}, registry_names=["texcraft::new_vm"], armed=armed, crate_scope=scope,
+                    fn_filter=lambda fn: fn.id not in seen1, floor_fns=5, floor_sites=1,
+                    what=" (texcraft binary registry): the interpreter would crash instead of returning a located error")
